@@ -110,6 +110,7 @@ def gen_rounds(rng, tier):
             "timeout_ms": rng.choice([0, 0, 150]),
             "log_level": i % 2 == 1,
             "grpc": i % 2 == 0,
+            "real": i % 3 == 2,       # the real HTTPS client (perform, user agent, compression) instead of the mock
         })
     return rounds
 
